@@ -1,14 +1,7 @@
 //! `check <ID> [--tier quick|thorough] [--seed N] [--replay FILE] [--strict]`
-mod engine;
-mod isa;
-mod mach;
-mod progen_sem;
-mod refasm;
-mod refparse;
-mod textgen;
-mod props;
 
-use engine::{Ctx, Tier};
+use h2a::engine::{self, Ctx, Tier};
+use h2a::props;
 use std::time::Instant;
 
 fn main() {
